@@ -18,8 +18,8 @@ from .. import units, guards, effects
 
 MANIFEST = {
     "level": "other",
-    "technique": "static analysis: interval-set reasoning on the path conditions of the symbolically evaluated season finder (refusal and exhaustive dispatch), type-state rule on the +-180 reduction (abstract interpretation of Angle vs number), refusal path rules, exit-criterion bound of the season refinement loop (threshold and gain extracted from the loop), algebraic match of the hour-angle cosine and control dependence of the no-times result, clamp detection on the argument of acos in rise_set (no-event days must surface), wrap-after-refinement rule for the rise/transit/set times, alias-retention rule for persistent stores in the solar-position routines, unit inference",
-    "text": "Refusals (years, latitudes), exhaustive season dispatch with the right target longitudes, the reduction of the equation of time to (-180, 180] degrees being applied to a number rather than to a self-wrapping Angle, and the exact condition under which rise/transit/set reports no times are decided for all inputs; rise_set is shown to hand the raw hour-angle cosine to acos, so days on which the Sun never reaches the standard altitude raise instead of yielding fabricated instants. The 1e-5 deg season accuracy is decided as far as the loop's exit guarantee goes (|dlon| <= asin(THR/G)); convergence itself, spacing, the 25-minute bound and altitude agreement depend on runtime positions and are not decided.",
+    "technique": "static analysis: interval-set reasoning on the path conditions of the symbolically evaluated season finder (refusal and exhaustive dispatch), type-state rule on the +-180 reduction (abstract interpretation of Angle vs number), refusal path rules, exit-criterion bound of the season refinement loop (threshold and gain extracted from the loop), algebraic match of the hour-angle cosine and control dependence of the no-times result, clamp detection on the argument of acos in rise_set (no-event days must surface), wrap-after-refinement rule for the rise/transit/set times, alias-retention rule for persistent stores in the solar-position routines, unit inference; the Angle / Epoch operator semantics the evaluator assumes are verified (operator conformance, operands never written); exact execution of the season iteration's starting estimate (statements before the loop evaluated symbolically) on every year -1000..3000",
+    "text": "Refusals (years, latitudes), exhaustive season dispatch with the right target longitudes, the reduction of the equation of time to (-180, 180] degrees being applied to a number rather than to a self-wrapping Angle, and the exact condition under which rise/transit/set reports no times are decided for all inputs; rise_set is shown to hand the raw hour-angle cosine to acos, so days on which the Sun never reaches the standard altitude raise instead of yielding fabricated instants. The 1e-5 deg season accuracy is decided as far as the loop's exit guarantee goes (|dlon| <= asin(THR/G)); convergence itself, spacing, the 25-minute bound and altitude agreement depend on runtime positions and are not decided. The starting estimate of the season iteration - which decides to which season instant the loop converges - is executed exactly for every year -1000..3000 and each season: it lies inside the requested year, the four estimates of a year are in order 86-96 days apart and the same season of consecutive years 365.0-365.5 days apart.",
     "note": "Trusted: bounds quoted in the property (-1000..3000, 66 deg 33'); Angle semantics (arithmetic wraps modulo 360). Undecided: accuracy and spacing of the seasons, equation-of-time magnitude and rate, rise/set altitude agreement.",
 }
 SEASONS = ["spring", "summer", "autumn", "winter"]
